@@ -114,6 +114,34 @@ func judgeC19(c c19Case) (string, string) {
 		prior = fsmodel.Tree{{Path: listingName, Kind: fsmodel.File, Perm: 0600, Mtime: fsmodel.T0, Data: []byte("old listing, longer than the new one will be ..........................................................")}}
 	case "symlink":
 		prior = fsmodel.Tree{{Path: listingName, Kind: fsmodel.Symlink, Perm: 0777, Mtime: fsmodel.T0, Link: outside}}
+	case "stale-tmp":
+		// stale entries that carry the names the disk writer gives its temporaries (left by a killed receive, or simply
+		// files of an earlier source)
+		prior = fsmodel.Tree{{Path: ".tmp.482913377", Kind: fsmodel.File, Perm: 0600, Mtime: fsmodel.T0, Data: []byte("orphan")},
+			{Path: ".tmp.gen", Kind: fsmodel.Dir, Perm: 0755, Mtime: fsmodel.T0}, {Path: ".tmp.gen/.tmp.x", Kind: fsmodel.File, Perm: 0644, Mtime: fsmodel.T0, Data: []byte("x")}}
+	case "linked":
+		// an earlier receive of an earlier source: every regular file of the source is there, but all of them are names of
+		// ONE inode that carries the first file's bytes and metadata (the source has split the group since)
+		first := -1
+		for _, n := range src {
+			if n.Path == listingName || strings.HasPrefix(n.Path, listingName+"/") {
+				continue
+			}
+			if n.Kind == fsmodel.File {
+				if first < 0 {
+					first = len(prior)
+				} else {
+					f := prior[first]
+					n.Data, n.Perm, n.UID, n.GID, n.Mtime, n.Xattrs = f.Data, f.Perm, f.UID, f.GID, f.Mtime, f.Xattrs
+				}
+				n.HL = 77
+			}
+			prior = append(prior, n)
+		}
+		if first >= 0 {
+			prior[first].HL = 77
+		}
+		prior = fixGroups(prior)
 	case "stale":
 		prior = fsmodel.Tree{{Path: "stale", Kind: fsmodel.Dir, Perm: 0755, Mtime: fsmodel.T0}, {Path: "stale/f", Kind: fsmodel.File, Perm: 0644, Mtime: fsmodel.T0, Data: []byte("s")},
 			{Path: "a", Kind: fsmodel.Symlink, Perm: 0777, Mtime: fsmodel.T0, Link: "nowhere"}}
@@ -285,10 +313,10 @@ func c19Cases(tier string) []c19Case {
 				}
 				priors := []string{"empty"}
 				if mi == 0 || mask == (1<<len(paths))-1 || mask == 0 {
-					priors = []string{"empty", "copy", "listing", "symlink", "stale"}
+					priors = []string{"empty", "copy", "listing", "symlink", "stale", "stale-tmp", "linked"}
 				}
 				for _, pr := range priors {
-					if pr != "empty" && pr != "copy" {
+					if pr != "empty" && pr != "copy" && pr != "linked" {
 						out = append(out, c19Case{Src: t, Select: sel, Prior: pr, Merge: true})
 					}
 					out = append(out, c19Case{Src: t, Select: sel, Prior: pr})
